@@ -465,7 +465,7 @@ def _random_case(rng, mech):
     pre, nodes = [], []          # nodes[h] = {'cls', 'a', 'b', 'l': 'list'|'int', 'attrs': {name: kind}}
 
     def node(cls, a=None, b=None):
-        return {'cls': cls, 'a': a, 'b': b, 'l': 'list', 'attrs': {}}
+        return {'cls': cls, 'a': a, 'b': b, 'l': 'list', 'attrs': {}, 'const': []}
 
     nsub = rng.choice([0, 1, 1, 2])
     for _ in range(nsub):
@@ -497,8 +497,9 @@ def _random_case(rng, mech):
         cls = nd['cls']
         r = rng.random()
         ints = ['x', 'y'] if cls == SUB else ['n']
-        if r < 0.3:
-            p = rng.choice(ints)
+        free_ints = [p for p in ints if p not in nd['const']]
+        if r < 0.3 and free_ints:
+            p = rng.choice(free_ints)
             return set_(target_ref, p, rng.randint(0, 5) if p != 'n' else rng.randint(0, 50))
         if r < 0.4:
             if nd['l'] == 'list':
@@ -513,7 +514,12 @@ def _random_case(rng, mech):
             return set_(target_ref, 'l', [rng.randint(1, 9) for _ in range(rng.randint(0, 2))])
         if r < 0.6:
             p = rng.choice(ints)
-            return pedit(target_ref, p, **rng.choice([{'bounds': [0, rng.randint(60, 100)]}, {'bounds': None}, {'constant': False}]))
+            e = rng.choice([{'bounds': [0, rng.randint(60, 100)]}, {'bounds': None}, {'constant': False}, {'constant': True}])
+            if e.get('constant') is True and p not in nd['const']:
+                nd['const'].append(p)
+            elif e.get('constant') is False and p in nd['const']:
+                nd['const'].remove(p)
+            return pedit(target_ref, p, **e)
         if r < 0.72:
             name = rng.choice(['extra', 'tag'])
             if nd['attrs'].get(name) == 'list' and rng.random() < 0.6:
@@ -533,7 +539,10 @@ def _random_case(rng, mech):
                 return set_(target_ref, slot, R(H(h)))
             nd[slot] = None
             return set_(target_ref, slot, None)
-        return set_(target_ref, 'x', rng.randint(0, 5))
+        if nd['l'] == 'list':
+            return mutate(target_ref, 'l', rng.randint(1, 9))
+        nd['attrs']['tag'] = 'int'
+        return setattr_(target_ref, 'tag', rng.randint(1, 9))
 
     # pre-history on the root, its sub-objects and the free subs
     for _ in range(rng.randint(0, 7)):
@@ -585,7 +594,7 @@ def cases(rng, tier, worker, nworkers):
         for f in sorted(glob.glob(os.path.join(os.path.dirname(__file__), '..', '..', 'corpus', 'C17', '*.json'))):
             yield dict(json.load(open(f))['case'], policy=policy(), classes=CLASSES)
         yield from directed()
-    n_random = 900 if tier == 'quick' else 16000 // nworkers
+    n_random = 3000 if tier == "quick" else 40000 // nworkers
     for j in range(n_random):
         yield _random_case(rng, MECHS[j % len(MECHS)])
 
